@@ -6,6 +6,15 @@ CLAIMED = {
  'C01': dict(technique='partial evaluation of the generator (ast interpreter, abstract children) + explicit-state provenance dataflow over every emitted skeleton; assume/guarantee induction over expression trees',
              text='For all grammars over the listed constructs (structural induction on per-class summaries): failed attempts leave no trace in the position register, the static flags are sound, register protocol, and the PEG position/value-flow table hold for every configuration of every class in both calling conventions. Decides the structural clause, not parse results on inputs.',
              note='Assumes children obey their summaries (induction hypothesis), CPython semantics of emitted statements, outsourcer rendering. Not decided: regex engine behaviour, value equality on inputs, termination.', ref='3.1, 4 C01'),
+ 'C02': dict(technique='partial evaluation of OperatorTable._compile + provenance dataflow with ghost state over the emitted shunting-yard loop; finite evaluation of the emitted precedence/associativity decision formula',
+             text='For every table shape x child flag state x convention: the table ends only after an operand or postfix operator, restores of the position saved before a consumed operator are terminal, no trace of failed attempts, sound flags; associativity ids of create() agree with the constants tested in the emitted loop. Structural clauses (a)-(c) only.',
+             note='Not decided: that shunting-yard builds the unique precedence tree for arbitrary token sequences. Assumes operator expressions are not always-succeeding.', ref='4 C02'),
+ 'C03': dict(technique='partial evaluation of List/Sep._compile for every bound spelling / option combination + provenance dataflow with ghost state (bound tests, separator seen, last appended)',
+             text='Upper-bound test on every path from append to next attempt; lower-bound test guards success; trailing separator consumed iff allow_trailer; allow_empty/require_separator guard success; int/str spellings of bounds handled alike; G1-G3 so an incomplete repetition leaves no trace.',
+             note='Assumes min_len <= max_len for symbolic bounds. Not decided: greediness on inputs, element values.', ref='4 C03'),
+ 'C07': dict(technique='symbolic path enumeration of the trampoline loop with role inference (request/stack/memo) + def-use rules; leaf skeleton specs for request emission',
+             text='Generators are created only initially and on a memo miss; completion stores the result under the request key from the stack top; hits replay the stored object; memo is one fresh local dict per call; CALL tag cannot be confused with a status. Checked for both conventions and the copy in sourcer/parser.py.',
+             note='Trusts CPython dict/tuple hashing. Not decided: running time.', ref='4 C07'),
 }
 NA = {
  'C12': 'Bootstrap fixed point compares outputs of executing the generator across generations; any static surrogate is either a text comparison that fires on harmless edits or a re-execution of the generator (DESIGN.md section 6).',
